@@ -94,6 +94,18 @@ def bfeeEngine (args : List String) : String :=
        | none => "bad-op"
        | some (s, labels) => s!"ok {s.recorded} {s.escrow} {s.vault} | {joinSp labels}")
     | _, _ => "bad-op"
+  | ["settlef", recorded, escFinal, vaultFinal, escOther, vaultOther, which] =>
+    -- the caller passes the recorded final-output accounts (which = 0) or the order's funded escrow
+    -- of ANOTHER mint with the builder's vault for that mint (which = 1)
+    match allNat [recorded, escFinal, vaultFinal, escOther, vaultOther, which] with
+    | some [recorded, escFinal, vaultFinal, escOther, vaultOther, which] =>
+      if which > 1 then "bad-op" else
+      (match settleWith ⟨recorded, escFinal, vaultFinal⟩ .builder (which == 0) with
+       | .error .mismatched => "err Mismatched"
+       | .error .transfer => "err Transfer"
+       | .error _ => "err Other"
+       | .ok (s, amt) => s!"ok {amt} | {s.recorded} {s.escrow} {s.vault} {escOther} {vaultOther}")
+    | _ => "bad-op"
   | ["settlex", accounts, recorded, escrow, vault, times] =>
     match allNat [accounts, recorded, escrow, vault, times] with
     | some [accounts, recorded, escrow, vault, times] =>
@@ -102,6 +114,7 @@ def bfeeEngine (args : List String) : String :=
       let showS (s : Settle) := s!"{s.recorded} {s.escrow} {s.vault}"
       let showE : SErr → String
         | .notProvided => "err NotProvided" | .invalidUser => "err InvalidUser" | .transfer => "err Transfer"
+        | .mismatched => "err Mismatched"
       (match settleIx ⟨recorded, escrow, vault⟩ p with
        | .error e => showE e
        | .ok (s1, a1) =>
